@@ -452,6 +452,50 @@ def emit_names_in_identity(ctx, i):
     ctx.case({"emit-identity": [str(e) for e in emits], "b": type(backend).__name__}, True)
 
 
+def lru_recency(ctx, i):
+    """Size-limited in-memory backend, directed history: with room for m entries, an entry that was just READ is the
+    most recently used one, so the next insertion evicts some other entry and the read one is still served (documented
+    LRU behaviour of InMemoryCache); the function is invoked again only for arguments whose entry was evicted."""
+    from hypergraph import FunctionNode, Graph, InMemoryCache, SyncRunner
+
+    rng = ctx.rng
+    m = rng.randint(2, 4)
+    calls = []
+
+    def f(x):
+        calls.append(x)
+        return ("f", x)
+
+    g = Graph([FunctionNode(f, name="f", output_name="o", cache=True)], name="lru")
+    runner = SyncRunner(cache=InMemoryCache(max_size=m))
+    keys = [f"k{j}" for j in range(m)]
+    hist = keys + [keys[0], "new", keys[0], keys[1]]  # fill, read the oldest, insert one more, read the oldest again, then the evicted one
+    model = []  # most recent last
+    case = {"program": f"cached f(x), InMemoryCache(max_size={m})", "history": hist}
+    for step, x in enumerate(hist):
+        n0 = len(calls)
+        r = runner.run(g, {"x": x})
+        invoked = len(calls) - n0
+        ctx.obs["cached_runs_compared"] += 1
+        ctx.obs["lru_recency_runs"] += 1
+        retained = x in model
+        if retained:
+            model.remove(x)
+        model.append(x)
+        if len(model) > m:
+            model.pop(0)
+        if r.values.get("o") != ("f", x):
+            ctx.violation("C09:cached-differs-from-uncached", f"LRU history step {step}: f({x!r}) returned {r.values}", {**case, "step": step})
+            return
+        if retained and invoked:
+            ctx.violation("C09:lru-model", f"LRU history {hist[: step + 1]} (max_size={m}): the entry for {x!r} is among the {m} most recently used, yet the function was invoked again", {**case, "step": step})
+            return
+        if not retained and not invoked:
+            ctx.violation("C09:lru-model", f"LRU history {hist[: step + 1]} (max_size={m}): the entry for {x!r} was evicted (or never stored), yet no invocation happened", {**case, "step": step})
+            return
+    ctx.case({"lru-recency": m}, True)
+
+
 def container_arguments(ctx, i):
     """Arguments that are different values although they hold the same members - list / tuple / set / frozenset, dicts
     with the same items - each get their own entry; equal arguments of the same type hit."""
@@ -634,5 +678,7 @@ def run(ctx):
             emit_names_in_identity(ctx, i)
         elif i % 10 == 6:
             container_arguments(ctx, i)
+        elif i % 20 == 2:
+            lru_recency(ctx, i)
         else:
             history(ctx, i, ["mem", "lru", "disk"][i % 3])
